@@ -89,8 +89,10 @@ func (this *Item) action(sym string, nextState int) action.Action {
 	return action.ERROR
 }
 
+// canRecover returns true if the error symbol can be shifted from this item,
+// i.e. the item is at the start of an alternative that begins with error.
 func (this *Item) canRecover() bool {
-	return this.Len > 0 && this.Body[0] == "error"
+	return this.Len > 0 && this.Pos == 0 && this.Body[0] == "error"
 }
 
 // Equals weturns whether two Items are equal based on their ProdIdx, Pos and NextToken.
